@@ -1,8 +1,10 @@
 """Extraction items for translate.py: each function takes the repo path and returns Lean lines.
 Pure `ast` walking of the repository's current source text; nothing from the repository is executed."""
 import ast
-import astnorm
 import os
+import sys
+sys.path.insert(0, os.path.dirname(os.path.abspath(__file__)))
+import astnorm  # noqa: E402
 
 
 def _parse(repo, rel):
